@@ -463,7 +463,7 @@ class Run:
             config.cancel_latency = sc["cfg"]["latency"]["cancel"]
             config.update_latency = sc["cfg"]["latency"]["update"]
             config.replace_latency = sc["cfg"]["latency"]["replace"]
-            config.raise_errors = True
+            config.raise_errors = sc.get("raise_errors", True)
             paths = []
             for m in sc["markets"]:
                 p = os.path.join(tmp, m["id"])
@@ -508,21 +508,54 @@ class Run:
 
             trade_mod.Trade.create_order_replacement = repl
 
+            inj = sc.get("inject")
+            run.calls = []
+
+            def hit(who, kind, market_id, pt):
+                """C13: log the callback invocation; at the injected one either raise or behave as a no-op"""
+                run.calls.append((who, kind, market_id, pt))
+                if inj and inj["who"] == who and inj["kind"] == kind and inj["market"] == market_id and inj["pt"] == pt:
+                    if inj["mode"] == "raise":
+                        raise RuntimeError("injected by the checker")
+                    return True
+                return False
+
             class Script(BaseStrategy):
                 def check_market_book(self, market, market_book):
+                    if hit("s%d" % self.sidx, "check", market.market_id, market_book.publish_time_epoch):
+                        return False
                     return True
 
                 def process_new_market(self, market, market_book):
+                    if hit("s%d" % self.sidx, "newMarket", market.market_id, market_book.publish_time_epoch):
+                        return
                     run.events.append("newMarket/%d/%d" % (self.sidx, market_num(market.market_id)))
 
                 def process_market_book(self, market, market_book):
                     pt = market_book.publish_time_epoch
+                    if hit("s%d" % self.sidx, "book", market.market_id, pt):
+                        return
                     run.events.append("book/%d/%d/%d" % (self.sidx, market_num(market.market_id), pt))
                     if ms(datetime.datetime.utcnow()) != str(pt):
                         run.clock_ok = False
                     acts = run.acts.get((market.market_id, pt), {}).get(str(self.sidx), [])
                     state = {}
-                    res = [run.do_action(self.sidx, self, market, a, state) for a in acts]
+                    res = []
+                    mid_inj = inj if (inj and inj.get("kind") == "action" and inj["who"] == "s%d" % self.sidx
+                                      and inj["market"] == market.market_id and inj["pt"] == pt) else None
+                    try:
+                        for ai, a in enumerate(acts):
+                            if mid_inj and mid_inj["index"] == ai:
+                                if mid_inj["mode"] == "raise":
+                                    raise RuntimeError("injected inside the callback")
+                                break
+                            res.append(run.do_action(self.sidx, self, market, a, state))
+                    except RuntimeError as e:
+                        # what `with market.transaction() as t:` does when its body raises
+                        if state.get("t") is not None:
+                            state.pop("t").__exit__(type(e), e, e.__traceback__)
+                        run.results.append((self.sidx, res))
+                        raise
                     if state.get("t") is not None:
                         state["t"].__exit__(None, None, None)
                     run.results.append((self.sidx, res))
@@ -531,10 +564,26 @@ class Run:
                         h(run, self, market, market_book)
 
                 def process_orders(self, market, orders):
+                    if hit("s%d" % self.sidx, "orders", market.market_id, market.market_book.publish_time_epoch):
+                        return
                     run.events.append("processOrders/%d/%d/%d" % (self.sidx, market_num(market.market_id), len(orders)))
 
                 def process_closed_market(self, market, market_book):
+                    if hit("s%d" % self.sidx, "closed", market.market_id, market_book.publish_time_epoch):
+                        return
                     run.events.append("closed/%d/%d/%d" % (self.sidx, market_num(market.market_id), market_book.publish_time_epoch))
+
+            from flumine.markets.middleware import Middleware
+
+            class Probe(Middleware):
+                def __init__(self, idx):
+                    self.idx = idx
+
+                def __call__(self, market):
+                    hit("m%d" % self.idx, "mw", market.market_id, market.market_book.publish_time_epoch)
+
+            for k in range(sc.get("middlewares", 0)):
+                fw.add_market_middleware(Probe(k + 1))
 
             self.acts = {}
             for m in sc["markets"]:
